@@ -16,7 +16,35 @@ def seqs_upto(n):
         yield from itertools.product(SYMBOLS, repeat=k)
 
 
+def fresh_str(text):
+    """An equal but not interned string object (what json/pickle produce)."""
+    return ''.join(list(text))
+
+
+VARIANT = ['plain']       # 'plain' | 'rebuilt' | 'frozen'
+
+
 def build_track(mido, ti, spec):
+    t = _build_track(mido, ti, spec)
+    if VARIANT[0] == 'rebuilt':
+        # messages reconstructed from their dict form with fresh strings
+        out = mido.MidiTrack()
+        for m in t:
+            d = {fresh_str(k): (fresh_str(v) if isinstance(v, str) else v)
+                 for k, v in vars(m).items()}
+            if m.type == 'unknown_meta':
+                out.append(mido.UnknownMetaMessage(
+                    d['type_byte'], data=d['data'], time=d['time']))
+            else:
+                out.append(type(m).from_dict(d))
+        return out
+    if VARIANT[0] == 'frozen':
+        from mido.frozen import freeze_message
+        return mido.MidiTrack(freeze_message(m) for m in t)
+    return t
+
+
+def _build_track(mido, ti, spec):
     t = mido.MidiTrack()
     for pos, (kind, delta) in enumerate(spec):
         ident = ti * 16 + pos
@@ -35,7 +63,7 @@ def build_track(mido, ti, spec):
 def sig_no_time(m):
     d = dict(vars(m))
     d.pop('time')
-    return (type(m).__name__, tuple(sorted(d.items())))
+    return (type(m).__name__.replace('Frozen', ''), tuple(sorted(d.items())))
 
 
 def expected(tracks):
@@ -60,11 +88,21 @@ def snapshot(tracks):
 def check_one(mido, specs, acc, via_file):
     if acc.evals % 97 == 0:
         failed_merge(mido, acc)
+    if VARIANT[0] == 'plain' and (acc.evals // 3) % 5 == 0 and any(specs):
+        # the same case with messages rebuilt from dicts (fresh, not interned
+        # strings) and with frozen messages
+        for v in ('rebuilt', 'frozen'):
+            VARIANT[0] = v
+            try:
+                check_one(mido, specs, acc, via_file)
+            finally:
+                VARIANT[0] = 'plain'
     tracks = [build_track(mido, ti, sp) for ti, sp in enumerate(specs)]
     exp, total = expected(tracks)
     snap = snapshot(tracks)
     lens = [len(t) for t in tracks]
-    case = {'tracks': [[list(s) for s in sp] for sp in specs]}
+    case = {'tracks': [[list(s) for s in sp] for sp in specs],
+            'variant': VARIANT[0]}
     variants = [('skip_checks=False', lambda: mido.merge_tracks(tracks)),
                 ('skip_checks=True',
                  lambda: mido.merge_tracks(tracks, skip_checks=True))]
@@ -113,11 +151,13 @@ def check_one(mido, specs, acc, via_file):
                             or [len(t) for t in tracks] != lens):
             key, what = 'input-modified', 'input tracks/messages changed'
         if key is not None:
-            acc.violation(f'{key}/{name}', f'{name} on tracks {specs}: {what}',
+            acc.violation(f'{key}/{name}' + ('' if VARIANT[0] == 'plain'
+                                             else '/' + VARIANT[0]),
+                          f'{name} on {VARIANT[0]} tracks {specs}: {what}',
                           dict(case, via=name))
     # history: merge, change one delta IN PLACE (same track and message
     # objects), merge again - the second result must follow the edit
-    if any(tracks) and not acc.viol:
+    if any(tracks) and not acc.viol and VARIANT[0] != 'frozen':
         for name, fn in variants:
             try:
                 fn()
@@ -226,7 +266,11 @@ def check_case(case):
     mido = common.import_mido()
     acc = Acc()
     specs = [tuple(tuple(s) for s in sp) for sp in case['tracks']]
-    check_one(mido, specs, acc, True)
+    VARIANT[0] = case.get('variant', 'plain')
+    try:
+        check_one(mido, specs, acc, True)
+    finally:
+        VARIANT[0] = 'plain'
     return [(k, v[0][1]) for k, v in acc.viol.items()]
 
 
